@@ -163,7 +163,7 @@ def check(pid, hs, runs, tag):
         for k in tot:
             tot[k] += st[k]
         if err:
-            fails.append({'what': 'cache trace malformed: ' + err, 'history': h.text(), 'cmd': r.get('cmd')})
+            fails.append({'what': 'cache trace malformed: ' + err, 'history': h.text(), 'cmd': r.get('cmd'), 'level': 'model'})
             continue
         for rk, items in per.items():
             if any(i.startswith(('CM', 'CH')) for i in items):
@@ -180,5 +180,5 @@ def check(pid, hs, runs, tag):
         h, r, rk, items = owner[ci]
         fails.append({'what': 'the %s cache of rank %d and Cache.v disagree at cache operation #%d: %s' % (
                           'counting_set' if which == 'C' else 'reducing_adapter', rk, ii, items[ii][:200]),
-                      'history': h.text(), 'cmd': r.get('cmd'), 'trace_head': items[max(0, ii - 3):ii + 1]})
+                      'history': h.text(), 'cmd': r.get('cmd'), 'trace_head': items[max(0, ii - 3):ii + 1], 'level': 'model'})
     return {'validated': len(cases) - len(bad), 'failures': fails, 'msg': None, 'stats': dict(tot, rank_traces=len(cases))}
